@@ -8,6 +8,8 @@ from sqlparse.exceptions import SQLParseError
 
 RULE = ('(a) option dictionaries drawn from a pool of Python values per documented option (valid and invalid; singles exhaustively, random subsets) on a fixed probe and on random texts: format() returns or raises SQLParseError; '
         '(b) parse/split/format with random VALID option sets on junk (g2/g3), nearly valid and grammar inputs; (c) every read-only accessor on every node of every resulting tree; '
+        '(d) sweeps: degenerate inputs x every single valid option value (+ split(strip_semicolon), + encoding keyword), every token-prefix/suffix and single-token deletion of grammar statements, '
+        'every dictionary word in dangling positions (incl. after WITH), option values in every spelling/type x a reference of the documented domain (an invalid value must raise SQLParseError); '
         'non-trivial = distinct (text, options) or (text, node, accessor) evaluated')
 ASSUMPTIONS = ['right_margin is undocumented (raises NotImplementedError by design) and is outside the option domain', 'MemoryError etc. from CPython internals are out of scope']
 PARTIAL = ['lexer+splitter total, grouping total (only RecursionError), option validation total, accessor totality, every statement filter total on its decidable domain FilterSafe.* (strip_comments and use_space_around_operators on every tree) are theorems; that grouped trees of arbitrary junk lie inside FilterSafe.reindent/aligned/stripws is explored (DOMAIN(filtersafe), escaping exceptions classified by the Lean predicate); two former findings were repaired (KF-C07-F4/F5)']
@@ -131,6 +133,208 @@ def accessors(ctx, text, stmts):
                     stack.append(ch)
 
 
+# ---------------------------------------------------------------------------------------------------------------------------------
+# red-team round: API surface and contexts the random generators do not reach
+import decimal, fractions
+
+
+class _StrSub(str):
+    pass
+
+
+class _IntSub(int):
+    pass
+
+
+POOL2 = ['UPPER', 'Lower', 'Capitalize', ' upper', 'upper ', 'SQL', 'Python', 'PHP', 'title', 'swapcase', 'casefold', '__class__', b'upper', _StrSub('upper'), _StrSub('php'),
+         decimal.Decimal(1), decimal.Decimal('2.5'), decimal.Decimal('NaN'), fractions.Fraction(3, 1), fractions.Fraction(1, 2), _IntSub(3), _IntSub(0), complex(1, 0), (1,), {}, object,
+         '١٢', '+5', '-0', '0x10', '1e3', ' 10\n', '٣', 2 ** 63, -2 ** 63, 1 << 20, 'True', 'false', 'None', '[...]', '\n', '\x00', 'é' * 3, bytearray(b'3')]
+
+
+def must_reject(opt, v, opts):
+    """a literal reading of the documented domain of each option (docs/source/api.rst, formatter.validate_options docstrings):
+    True = the value is invalid and format() must raise SQLParseError; None = the documentation leaves it open"""
+    if opt in ('keyword_case', 'identifier_case'):
+        return not any(v is x or (isinstance(v, str) and v == x) for x in (None, 'upper', 'lower', 'capitalize'))
+    if opt == 'output_format':
+        return not any(v is x or (isinstance(v, str) and v == x) for x in (None, 'sql', 'python', 'php'))
+    if opt in ('strip_comments', 'use_space_around_operators', 'strip_whitespace', 'indent_columns', 'reindent', 'reindent_aligned', 'indent_after_first', 'indent_tabs',
+               'comma_first', 'compact'):
+        try:
+            return not (v == True or v == False)        # noqa: E712 — "a boolean": the implementation's reading is ==, so 1/0/1.0 pass
+        except Exception:
+            return True
+    if opt in ('indent_width', 'wrap_after', 'truncate_strings'):
+        if v is None:
+            return False if opt == 'truncate_strings' else True
+        try:
+            n = int(v)
+        except Exception:
+            return True
+        return n < 1 if opt == 'indent_width' else (n < 0 if opt == 'wrap_after' else n <= 1)
+    if opt == 'truncate_char':
+        return None if opts.get('truncate_strings') is None else not isinstance(v, str)
+    return None
+
+
+def try_option(ctx, text, opts, what):
+    """format() with an option dictionary of arbitrary values: no foreign exception, and an invalid value is rejected with SQLParseError"""
+    ctx.evaluations += 1
+    try:
+        sqlparse.format(text, **dict(opts))
+        outcome = 'ok'
+    except SQLParseError:
+        outcome = 'SQLParseError'
+    except Exception as e:
+        ctx.fail('%s: %s escaped from format()' % (what, type(e).__name__), text, observed=repr(e)[:200], required='str or SQLParseError', options=repr(opts))
+        return
+    if outcome == 'ok':
+        bad = [k for k, v in opts.items() if must_reject(k, v, opts) is True]
+        if bad:
+            ctx.fail('%s: an invalid option value was accepted' % what, text, observed='format() returned normally', required='SQLParseError for %s' % bad, options=repr(opts))
+
+
+DEGENERATE = ['', ' ', '\n', '\r', ';', ';;', ' ; ', '/**/', '/* c */', '-- c', '--', '#', '# ', '# c\n', '()', '(', ')', '[ ]', '[]', '[a]', "''", '""', '``', '` `', '´´', '$$$$', '$a$$a$', ',', '.', '..', 'a',
+              'select', 'case', 'case end', 'case when', 'where', 'where ,x', 'values', 'values (', 'with', 'with a', 'with a as (select 1)', 'with a, b', 'with recursive a', 'begin', 'end', 'go', 'GO 2',
+              'as', 'a as', '( as)', 'f( as)', 'over', 'f() over', 'f() over (', 'a::', '::int', 'a::int::', 'a[', 'a[]', 'a[1][', ':=', 'a :=', ':= a', '@', '@@', "x'", "'", '"', '`', '\\', '\\d', '\x00',
+              '﻿', 'desc', 'a desc', 'order by', 'order by desc', 'in', 'in (', 'between', 'and', 'a and', 'not null', 'date', "date ''", 'interval', "at time zone 'x'", 'if', 'end if', 'for', 'loop',
+              'declare', 'create', 'create or replace', 'x.', '.x', 'x..y', '*', 'a.*', '1.', '.5', '-', '--+', '/*+*/', '%s', '?', ':1', '$1', 'a b c', 'a, ', ', a', 'a,,b', '(,)', '(a,)', 'f(,)', 'union', 'union all',
+              'join', 'left join', 'on', 'using', 'limit', 'set', 'update set', 'insert into', 'delete from', 'like', 'not like', 'is', 'null', 'else', 'then', 'when', 'case else end', 'case x , end']
+
+
+ACTIVE = [{'keyword_case': 'upper'}, {'identifier_case': 'capitalize'}, {'output_format': 'python'}, {'output_format': 'php'}, {'strip_comments': True}, {'use_space_around_operators': True},
+          {'strip_whitespace': True}, {'truncate_strings': 2}, {'reindent': True, 'indent_columns': True}, {'reindent': True}, {'reindent_aligned': True}, {'reindent': True, 'comma_first': True},
+          {'reindent': True, 'compact': True}, {'reindent': True, 'wrap_after': 1}, {'reindent': True, 'indent_tabs': True, 'indent_after_first': True}]
+
+
+def degenerate(ctx):
+    ENCODINGS = [None, 'utf-8', 'latin-1', 'ascii', 'utf-16', 'cp1252', 'utf-8-sig']
+    for text in DEGENERATE:
+        for k in OPTS:
+            for v in VALID[k]:
+                o = {k: v}
+                if k in ('indent_width', 'wrap_after', 'comma_first', 'compact', 'indent_after_first', 'indent_tabs'):
+                    o['reindent'] = True
+                if k == 'truncate_char':
+                    o['truncate_strings'] = 2
+                try_format(ctx, text, o, 'degenerate input')
+        for i, a in enumerate(ACTIVE):
+            for b in ACTIVE[i + 1:]:
+                o = dict(a)
+                o.update(b)
+                try_format(ctx, text, o, 'degenerate input, option pair')
+        api_surface(ctx, text, ENCODINGS)
+        try:
+            stmts = sqlparse.parse(text)
+        except SQLParseError:
+            continue
+        except Exception as e:
+            ctx.fail('%s escaped from parse()/split()' % type(e).__name__, text, observed=repr(e)[:160], required='result or SQLParseError')
+            continue
+        accessors(ctx, text, stmts)
+        for st in stmts:
+            try:
+                st.get_type()
+            except SQLParseError:
+                pass
+            except Exception as e:
+                ctx.fail('%s escaped from Statement.get_type()' % type(e).__name__, text, observed=repr(e)[:160], required='result or SQLParseError', accessor='get_type')
+
+
+def api_surface(ctx, text, encodings=(None, 'utf-8', 'latin-1')):
+    """every documented keyword of the entry points: split(strip_semicolon=…), encoding=… for a str input, parsestream"""
+    for strip in (True, False):
+        for enc in encodings:
+            ctx.evaluations += 1
+            try:
+                r = sqlparse.split(text, encoding=enc, strip_semicolon=strip)
+                if not all(isinstance(x, str) for x in r):
+                    ctx.fail('split() returned a non-str element', text, observed=repr(r)[:100], required='list of str')
+            except SQLParseError:
+                pass
+            except Exception as e:
+                ctx.fail('%s escaped from split(strip_semicolon=%r, encoding=%r)' % (type(e).__name__, strip, enc), text, observed=repr(e)[:160], required='result or SQLParseError',
+                         api=['split', strip, enc])
+    for enc in encodings[1:]:
+        ctx.evaluations += 2
+        for name, call in (('parse', lambda: sqlparse.parse(text, encoding=enc)), ('format', lambda: sqlparse.format(text, encoding=enc, reindent=True)),
+                           ('parsestream', lambda: list(sqlparse.parsestream(text, encoding=enc)))):
+            try:
+                call()
+            except SQLParseError:
+                pass
+            except Exception as e:
+                ctx.fail('%s escaped from %s(encoding=%r)' % (type(e).__name__, name, enc), text, observed=repr(e)[:160], required='result or SQLParseError', api=[name, None, enc])
+
+
+def cuts(ctx, g, n):
+    """nearly valid = a valid statement cut short or missing one token: every token-prefix, every token-suffix, every single-token deletion"""
+    rng = ctx.rng
+    from sqlparse import lexer
+    for it in range(n):
+        r = rng.random() if it else 0.8      # the first one is always a two-CTE statement
+        lex = g.stmt() if r < 0.7 else ([grammar.kw('WITH'), grammar.nm('q'), grammar.kw('AS'), grammar.pu('(')] + g.select(1) + [grammar.pu(')'), grammar.pu(','), grammar.nm('r'), grammar.kw('AS'),
+                                          grammar.pu('(')] + g.select(2) + [grammar.pu(')')] + g.select(1) if r < 0.85 else g.create_block())
+        text = grammar.render_script([lex], grammar.Layout(rng, comments=rng.choice([0, 0, 0.1]), tight=0.2), final_semi=False)
+        toks = [v for _, v in lexer.tokenize(text)]
+        sig = [i for i, v in enumerate(toks) if v.strip()]
+        if ctx.quick() and len(sig) > 24:
+            sig = sorted(rng.sample(sig, 24))
+        variants = [''.join(toks[:i + 1]) for i in sig] + [''.join(toks[i:]) for i in sig[1:]] + [''.join(toks[:i] + toks[i + 1:]) for i in sig]
+        for k, t in enumerate(variants):
+            ctx.nontrivial.add(t)
+            try:
+                stmts = sqlparse.parse(t)
+                ctx.evaluations += 1
+            except SQLParseError:
+                continue
+            except Exception as e:
+                ctx.fail('%s escaped from parse()/split()' % type(e).__name__, t, observed=repr(e)[:160], required='result or SQLParseError')
+                continue
+            for st in stmts:
+                ctx.evaluations += 1
+                try:
+                    st.get_type()
+                except SQLParseError:
+                    pass
+                except Exception as e:
+                    ctx.fail('%s escaped from %s.%s()' % (type(e).__name__, 'Statement', 'get_type'), t, observed=repr(e)[:160], required='result or SQLParseError', node=str(st)[:80],
+                             accessor='get_type')
+            try_format(ctx, t, random_valid_opts(rng), 'valid options')
+            if k % 11 == 0:
+                accessors(ctx, t, stmts)
+
+
+def dangling_words(ctx):
+    """every word of the keyword dictionaries in dangling positions (nothing after it, nothing before it, after WITH, inside brackets)"""
+    import props.C18 as C18
+    words = C18.all_dictionary_words()
+    rng = ctx.rng
+    if ctx.quick():
+        words = [w for w in words if rng.random() < 0.3]
+    shapes = ['%s', 'x %s', '%s x', '( %s )', '%s ,', 'with %s', 'with a %s', 'with a as (select 1) %s', 'select %s', 'f(%s', 'case %s end', 'select 1 %s']
+    optsets = [{'reindent': True}, {'reindent_aligned': True}, {'strip_comments': True, 'use_space_around_operators': True, 'output_format': 'python'}]
+    for w in words:
+        for si, sh in enumerate(shapes):
+            t = sh % w.lower()
+            try:
+                stmts = sqlparse.parse(t)
+                ctx.evaluations += 1
+                for st in stmts:
+                    st.get_type()
+            except SQLParseError:
+                continue
+            except Exception as e:
+                ctx.fail('%s escaped from parse()/get_type()' % type(e).__name__, t, observed=repr(e)[:160], required='result or SQLParseError', accessor='get_type')
+                continue
+            try_format(ctx, t, optsets[si % 3] if ctx.quick() else optsets[0], 'dangling word')
+            if not ctx.quick():
+                try_format(ctx, t, optsets[1], 'dangling word')
+                try_format(ctx, t, optsets[2], 'dangling word')
+            if si % 4 == 0:
+                accessors(ctx, t, stmts)
+
+
 def run(ctx):
     rng = ctx.rng
     # (a) option values
@@ -142,8 +346,22 @@ def run(ctx):
         o = {k: rng.choice(POOL) for k in rng.sample(OPTS, rng.randint(1, 4))}
         try_format(ctx, PROBE if rng.random() < 0.5 else gen.g2(rng), o, 'options')
         ctx.nontrivial.add(('opts', repr(sorted(o.items(), key=lambda kv: kv[0]))))
+    # option values in other spellings and types; every value also against the reference of the documented domain
+    for k in OPTS:
+        for v in POOL + POOL2:
+            o = {k: v}
+            if k == 'truncate_char':
+                o['truncate_strings'] = 3
+            try_option(ctx, PROBE, o, 'option %s=%r' % (k, v))
+            ctx.nontrivial.add(('opt2', k, repr(v)))
+    for _ in range(ctx.n(300, 5000)):
+        o = {k: rng.choice(POOL + POOL2) for k in rng.sample(OPTS, rng.randint(1, 3))}
+        try_option(ctx, PROBE, o, 'options')
+    degenerate(ctx)
     # (b)+(c)
     g = grammar.Gen(rng)
+    cuts(ctx, g, ctx.n(14, 1500))
+    dangling_words(ctx)
     for it in range(ctx.n(700, 20000)):
         r = rng.random()
         if r < 0.45:
@@ -167,6 +385,8 @@ def run(ctx):
             try_format(ctx, text, random_valid_opts(rng), 'valid options')
         if it % 2 == 0:
             accessors(ctx, text, stmts)
+        if it % 3 == 0:
+            api_surface(ctx, text, (None, rng.choice(['utf-8', 'latin-1', 'ascii', 'utf-16'])))
     # deep nesting under the default recursion limit: statement filters overflow before grouping does
     for depth in (300, 600):
         for kind in ('(', 'f('):
@@ -241,7 +461,20 @@ def replay(ctx, payload):
     n0 = len(ctx.failures)
     ex = payload.get('extra') or {}
     if 'accessor' in ex:
-        accessors(ctx, payload['input'], sqlparse.parse(payload['input']))
+        stmts = sqlparse.parse(payload['input'])
+        accessors(ctx, payload['input'], stmts)
+        for st in stmts:
+            try:
+                st.get_type()
+            except SQLParseError:
+                pass
+            except Exception as e:
+                ctx.fail('%s escaped from Statement.get_type()' % type(e).__name__, payload['input'], observed=repr(e)[:160], required='result or SQLParseError')
+    elif 'api' in ex:
+        api_surface(ctx, payload['input'], (None, ex['api'][2]))
+    elif 'invalid option value was accepted' in (payload.get('what') or ''):
+        opts = payload.get('options') or '{}'
+        try_option(ctx, payload['input'], eval(opts, {'inf': float('inf'), 'nan': float('nan'), 'Decimal': decimal.Decimal, 'Fraction': fractions.Fraction}) if isinstance(opts, str) else opts, 'replay')
     else:
         opts = payload.get('options') or ex.get('options') or '{}'
         try_format(ctx, payload['input'], eval(opts, {'inf': float('inf'), 'nan': float('nan')}) if isinstance(opts, str) else opts, 'replay')
